@@ -1,0 +1,53 @@
+//! Verification hooks for the sender shell, compiled only with the
+//! `verif-hooks` feature (off by default).
+//!
+//! Re-exports the otherwise private event-loop arms so a deterministic
+//! simulator can drive the real functions, and provides the seeded `conn_id`
+//! source. Nothing here changes behaviour unless a simulator installs a source.
+#![allow(dead_code, unused_imports)]
+
+use std::cell::RefCell;
+
+pub use super::housekeeping::handle_housekeeping;
+pub use super::packet_handler::{
+    InstantForwarder, drain_packet_queue, flush_all_batches, forward_via_connection,
+    handle_srt_packet, handle_uplink_packet, process_connection_events,
+};
+pub use super::reload::{IpReload, ReloadRefusal, analyze_ip_reload_text};
+#[cfg(unix)]
+pub use super::reload::analyze_ip_reload;
+pub use super::sequence::SequenceTracker;
+pub use super::uplink::{
+    ConnIo, ConnIoMap, ConnectionId, ReaderHandle, UplinkPacket, create_uplink_channel,
+    sync_readers,
+};
+pub use super::uplink_recv::process_uplink_packet;
+
+/// `attribute_nak` is `pub(crate)`; expose it through a wrapper.
+pub fn attribute_nak(
+    connections: &mut [srtla_core::connection::SrtlaConnection],
+    seq_tracker: &SequenceTracker,
+    nak: u32,
+    current_time_ms: u64,
+) -> Option<usize> {
+    super::packet_handler::attribute_nak(connections, seq_tracker, nak, current_time_ms)
+}
+
+type IdSource = Box<dyn FnMut() -> u64>;
+
+thread_local! {
+    static CONN_IDS: RefCell<Option<IdSource>> = const { RefCell::new(None) };
+}
+
+/// Install (or with `None` remove) the seeded `conn_id` source for this thread.
+pub fn set_conn_id_source(src: Option<IdSource>) {
+    CONN_IDS.with(|c| *c.borrow_mut() = src);
+}
+
+/// The seeded id if a source is installed, otherwise the id already drawn.
+pub(crate) fn seeded_conn_id(drawn: u64) -> u64 {
+    CONN_IDS.with(|c| match c.borrow_mut().as_mut() {
+        Some(src) => src(),
+        None => drawn,
+    })
+}
